@@ -25,7 +25,7 @@ CLAIMS["C12"] = ("exploration",
     _READER + " Frozen colour and font tables (data/*.json, sha256-pinned).",
     "property-based testing: exhaustive colour/font enumeration + Hypothesis palettes, reference-table oracle on independently parsed output")
 CLAIMS["C14"] = ("exploration",
-    "Model-based generation of call histories (construct with/without shared component objects, encode, failing encode, encode twice; indices modulo the live pool) over 29 document archetypes and pairs / triples of generated documents (in-place setting changes and re-written figure files included), exhaustive for histories of length <=2 over archetype x sharing menu; differential oracle against a freshly spawned interpreter encoding an equal-valued unshared document, plus repeat-call equality and DataFrame immutability. " + _EXPL,
+    "Model-based generation of call histories (construct with/without shared component objects, encode, failing encode, encode twice; indices modulo the live pool) over 31 document archetypes and pairs / triples of generated documents (in-place setting changes and re-written figure files included), exhaustive for histories of length <=2 over archetype x sharing menu; differential oracle against a freshly spawned interpreter encoding an equal-valued unshared document, plus repeat-call equality and DataFrame immutability. " + _EXPL,
     "Equal-valued = same constructor arguments; the baseline interpreter is spawned per distinct recipe and cached for the run.",
     "property-based testing over histories: Hypothesis op-sequence strategy + exhaustive short histories, differential oracle vs fresh interpreter")
 CLAIMS["C15"] = ("exploration",
